@@ -4,9 +4,10 @@
    handler).
 
    BTreeMap<u128, Sender<ServerCommand>> is a list of (id, alive) sorted by id; `alive` is ghost
-   state: the session task at the receiving end of that sender is still running. Dropping a sender
-   (eviction, removal, dropping the whole tracker) ends the task behind it: that is the `Closed`
-   output. `self.id += 1` is u128 arithmetic with overflow checks on: the overflow is `None`. *)
+   state: the session task at the receiving end of that sender is still running - in the TLS handshake
+   (run_session selects between the handshake and the command channel) or in SessionTask::run.
+   Dropping a sender (eviction, removal, dropping the whole tracker) ends the task behind it in
+   either phase: that is the `Closed` output. `self.id += 1` is u128 arithmetic with overflow checks on: the overflow is `None`. *)
 From Coq Require Import NArith List Bool Arith.
 Import ListNotations.
 Local Open Scope N_scope.
@@ -135,6 +136,7 @@ Fixpoint run (s : server) (evs : list event) : option (server * list output) :=
    make the session task return on its own (EOF / BadFrame), which is then notified. *)
 Inductive sop :=
 | Connect
+| ConnectSilent            (* TLS server: a peer that connects and never starts the handshake *)
 | ClientClose (k : N)
 | Garbage (k : N)
 | Req (k v : N)
@@ -144,7 +146,8 @@ Inductive sop :=
 
 Definition expand (o : sop) : list event :=
   match o with
-  | Connect => [Accept true]
+  | Connect | ConnectSilent => [Accept true]   (* a session in its TLS handshake is an ordinary tracked session:
+                                                   run_session selects on the command channel while it waits *)
   | ClientClose k | Garbage k => [PeerGone k; SessionEnded k]
   | Req k v => [Request k v]
   | SetDecode => [Command]
